@@ -205,34 +205,36 @@ def expand_ops(sym, op, N, maxlen=3):
         check(got == exp, 'unpackdict', got, exp)
     else:
         texts = [sym.enumstr('t%d' % i, maxlen, ALPHA) for i in range(n)]
-        rows = [[(texts[i] if sym.flag('same%d' % i) else 'a%d' % i), texts[i], 'c%d' % i] for i in range(n)]
-        table = [['a', 'b', 'c']] + rows
+        # the expanded field comes after a field that may hold the very same value, with a different cell in between
+        rows = [[(texts[i] if sym.flag('same%d' % i) else 'a%d' % i), 'm%d' % i, texts[i], 'c%d' % i] for i in range(n)]
+        H4 = ['a', 'm', 'b', 'c']
+        table = [H4] + rows
+
+        def base(r):
+            return list(r) if inc else [r[0], r[1], r[3]]
+        hdr0 = H4 if inc else ['a', 'm', 'c']
         if op == 'capture':
             got = [tuple(r) for r in petl.capture(table, 'b', '([ab])(.?)', ['p', 'q'], include_original=inc,
                                                   fill=['F1', 'F2'])]
-            hdr = (['a', 'b', 'c'] if inc else ['a', 'c']) + ['p', 'q']
-            exp = [tuple(hdr)]
+            exp = [tuple(hdr0 + ['p', 'q'])]
             for r in rows:
-                m = re.search('([ab])(.?)', r[1])
-                base = list(r) if inc else [r[0], r[2]]
-                exp.append(tuple(base + (list(m.groups()) if m else ['F1', 'F2'])))
+                m = re.search('([ab])(.?)', r[2])
+                exp.append(tuple(base(r) + (list(m.groups()) if m else ['F1', 'F2'])))
             check(got == exp, 'capture', got, exp)
         elif op == 'split':
             mx = sym.pick('maxsplit', [0, 1])
             got = [tuple(r) for r in petl.split(table, 'b', ',', ['p', 'q'], include_original=inc, maxsplit=mx)]
-            hdr = (['a', 'b', 'c'] if inc else ['a', 'c']) + ['p', 'q']
-            exp = [tuple(hdr)]
+            exp = [tuple(hdr0 + ['p', 'q'])]
             for r in rows:
-                base = list(r) if inc else [r[0], r[2]]
-                exp.append(tuple(base + re.split(',', r[1], maxsplit=mx)))
+                exp.append(tuple(base(r) + re.split(',', r[2], maxsplit=mx)))
             check(got == exp, 'split', got, exp)
         elif op == 'splitdown':
             mx = sym.pick('maxsplit', [0, 1])
             got = [tuple(r) for r in petl.splitdown(table, 'b', ',', maxsplit=mx)]
-            exp = [('a', 'b', 'c')]
+            exp = [tuple(H4)]
             for r in rows:
-                for piece in re.split(',', r[1], maxsplit=mx):
-                    exp.append((r[0], piece, r[2]))
+                for piece in re.split(',', r[2], maxsplit=mx):
+                    exp.append((r[0], r[1], piece, r[3]))
             check(got == exp, 'splitdown', got, exp)
 
 
